@@ -3,6 +3,9 @@ import SciVerif.Lemmas.C13c
 import SciVerif.Lemmas.C13i
 import SciVerif.Lemmas.C13j
 import SciVerif.Lemmas.C13k
+import SciVerif.Lemmas.C13l
+import SciVerif.Lemmas.C13m
+import SciVerif.Lemmas.C13n
 
 /-!
 # C13 — DIP node paths follow indentation and values are the literals written
@@ -220,6 +223,20 @@ theorem C13_block_value_roundtrip (k j : Nat) (nm : Str) (a : Nat) (ty : TyD) (d
     determine logical = .ok (blockNode k nm ty dims (blockText blk) unit) :=
   block_value_roundtrip k j nm a ty dims b c blk rest unit cm hn hd hu htail hblk
 
+/-- **Table expansion** (`TableNode.parse`).  A table written as header lines `name type[dims] [unit]`,
+    an empty line and `k ≥ 1` rows of simple cells (one blank between cells, split as the `_csv` reader
+    does, as many cells as header lines) expands to exactly the column definitions: in header order,
+    named `table.column`, with the type, width/sign and unit of the header, dimension `[k]`, carrying the
+    cells of that column in row order (read as JSON exactly when the header declares an inner dimension). -/
+theorem C13_table_expansion (tname : Str) (cols : List ColD) (rows : List (List Str))
+    (hcols : cols ≠ []) (hcok : ∀ c ∈ cols, c.Ok) (hrows : rows ≠ [])
+    (hr : ∀ r ∈ rows, r.length = cols.length ∧ ∀ c ∈ r, SimpleCell c) :
+    expandTable0 (some (.text (renderTable cols rows))) (some tname) = .ok (columnNodes tname cols rows) :=
+  expandTable0_render tname cols rows hcols hcok hrows hr
+
+example : renderTable [{ cname := "x".toList, ty := .int false none }, { cname := "y".toList, ty := .float none, unit := some (0, "s".toList) }]
+    [["0".toList, "1.5".toList], ["1".toList, "2.5".toList]] = "x int\ny float s\n\n0 1.5\n1 2.5".toList := by decide
+
 /-! ### casts of scalar literals: the value is what the text denotes -/
 
 /-- `none`, `true`, `false`, and any other text for a string parameter -/
@@ -266,5 +283,63 @@ theorem C13_inline_array_flat_partial (ty : Ty) (ds : List Dim) (toks : List Str
   simp only [castText, hn, Bool.false_eq_true, if_false, hp, bind, Except.bind, hel, hd, if_true]
 
 example : renderFlat ["1".toList, "-2".toList, "30".toList] = "[1,-2,30]".toList := by decide
+
+/-- **Inline arrays of arbitrary nesting depth.**  `Rendered s sh toks` says that the text `s` is a
+    rectangular nested list: a single word, or `[item,…,item]` (n ≥ 1) whose items are rendered with one
+    common shape.  For every such text `json.loads` returns the shape `sh` (= the dimensions, outermost
+    first) and the leaves `toks` in row-major order, and `cast_value` yields the array of the element
+    casts whenever the declared dimension admits the shape.  (Induction on the nesting; the fuel
+    `parseJson` supplies, the length of the text, is shown to suffice.) -/
+theorem C13_inline_array (ty : Ty) (ds : List Dim) (s : Str) (sh : List Nat) (toks : List Tok) (atoms : List Atom)
+    (hr : Rendered s sh toks) (hnone : (s == "none".toList) = false)
+    (hel : toks.mapM (tokAtom ty) = .ok atoms) (hd : checkDims ds sh = true) :
+    parseJson s = .ok (sh, toks) ∧ castText ty (some ds) s = .ok (.array sh atoms) := by
+  have hp := parseJson_rendered hr
+  refine ⟨hp, ?_⟩
+  simp only [castText, hnone, Bool.false_eq_true, if_false, hp, bind, Except.bind, hel, hd, if_true]
+
+/-- a nested list is rectangular by construction of `Rendered`: all items of one list have one shape;
+    the shape of `[[…],[…],…]` is the number of items followed by that common shape -/
+theorem C13_inline_array_shape (items : List (Str × List Tok)) (sh : List Nat) (hne : items ≠ [])
+    (h : ∀ it ∈ items, Rendered it.1 sh it.2) :
+    parseJson ('[' :: (joinWith [','] (items.map Prod.fst) ++ [']'])) =
+      .ok (items.length :: sh, items.flatMap Prod.snd) :=
+  parseJson_rendered (Rendered.arr items sh hne h)
+
+/-- **Escaped quotes.**  A definition whose double-quoted value is written with `\\"` for every quote
+    character of the intended text `s` (`s` itself free of backslash, newline and `$`): the lexer marks
+    the escapes (`$@01`), finds the closing quote, and hands back exactly `s` — the backslashes are gone,
+    the quote characters are there.  (`escQ` writes the value, `encode`/`decode` are the marks of
+    `_determine_node`; the proof shows `decode ∘ encode` is the intended un-escaping and lifts it
+    through the round trip.) -/
+theorem C13_literal_roundtrip_escaped (k : Nat) (nm : Str) (a : Nat) (ty : TyD) (dims : Option (List DimD)) (b c : Nat)
+    (s : Str) (unit cm : Option (Nat × Str))
+    (hn : NameOk nm) (hd : DimsOk dims) (hu : ∀ n x, unit = some (n, x) → UnitOk x)
+    (htail : NoEsc (renderTail unit cm)) (hs : ∀ ch ∈ s, ch ≠ '\\' ∧ ch ≠ '\n' ∧ ch ≠ '$') :
+    determine (List.replicate k ' ' ++ (definePrefix nm a ty dims b c ++
+        '"' :: (escQ '"' s ++ '"' :: renderTail unit cm))) = .ok (blockNode k nm ty dims s unit) := by
+  let v : ValD := { lit := .dq (encQ '"' enc1 s), unit := unit, cm := cm }
+  let d : LineD := .define nm a ty dims b c v
+  have e1 : enc1 = ['$', '@', '0', '1'] := by decide
+  have hvok : v.Ok := by
+    refine ⟨?_, hu⟩
+    show ∀ x ∈ encQ '"' enc1 s, x ≠ '"'
+    apply encQ_chars '"' enc1 (fun x => x ≠ '"')
+    · rw [e1]; decide
+    · intro x _ hx; exact hx
+  have hdok : d.Ok := ⟨hn, hd, hvok⟩
+  have henc : encode (definePrefix nm a ty dims b c ++ '"' :: (escQ '"' s ++ '"' :: renderTail unit cm)) = d.render := by
+    rw [encode_escaped_dq _ _ s (NoEsc_definePrefix nm a ty dims b c hn hd) htail
+      (fun ch hch => ⟨(hs ch hch).1, (hs ch hch).2.1⟩), define_render_prefix]
+    simp [ValD.render, Lit.render, v, List.append_assoc]
+  rw [determine_render_enc k _ d hdok henc]
+  simp only [d, LineD.node, v, Lit.text, decode_encQ_dq s (fun ch hch => (hs ch hch).2.2), blockNode]
+
+/-- the same marks for single quotes: `decode` gives the text with its apostrophes back -/
+theorem C13_escape_marks_inverse (s : Str) (h : ∀ c ∈ s, c ≠ '$') :
+    decode (encQ '"' enc1 s) = s ∧ decode (encQ '\'' enc0 s) = s :=
+  ⟨decode_encQ_dq s h, decode_encQ_sq s h⟩
+
+example : escQ '"' "say \"hi\"".toList = "say \\\"hi\\\"".toList := by decide
 
 end SciVerif.C13
